@@ -323,7 +323,7 @@ class CodeGenerator(nunavut._generators.AbstractGenerator):
 
         from ..lang._common import UniqueNameGenerator
 
-        # reset the name generator state for this type
+        _begin_file(self._env, self._post_processors)  # reset per-file state: name generator, line post-processors
         UniqueNameGenerator.reset()
 
         # Predetermine the post processor types.
@@ -1023,3 +1023,17 @@ def _hold_back_split_crlf(parts: typing.Iterable[str]) -> typing.Generator[str, 
         yield part
     if pending_cr:
         yield "\r"
+
+
+def _begin_file(
+    env: typing.Any, post_processors: typing.Optional[typing.List["nunavut._postprocessors.PostProcessor"]]
+) -> None:
+    """
+    The file generated for a type must not depend on the files generated before it: stateful post-processors start
+    over for each file.
+    """
+    del env
+    for post_processor in post_processors or []:
+        reset = getattr(post_processor, "reset", None)
+        if callable(reset):
+            reset()
